@@ -2,7 +2,7 @@
 import struct
 
 import framework as F
-from props.c03 import set_value, chan_config
+from props.c03 import set_value, chan_config, group_value
 
 
 class C07(F.Spec):
@@ -33,6 +33,22 @@ class C07(F.Spec):
             yield self.gen_reboot(rng, i)
         for i in range(8 if tier == "quick" else 60):
             yield self.gen_cancel(rng, i)
+        # timers pending on every channel at once (as many as there are relays, up to the eight the board can have): each of them
+        # switches back on time
+        for i in range(4 if tier == "quick" else 24):
+            nrel = [4, 8, 4, 3][i % 4]
+            ops = ["board relay%d" % nrel, "init", "adv 200"]
+            cmds, now = [], 200
+            order = list(range(nrel))
+            rng.shuffle(order)
+            for j, ch in enumerate(order):
+                d = 1000 if j == len(order) - 1 else rng.choice([20000, 30000, 45000])
+                ops.append("msg 110 " + set_value(9, ch, d, bytes([1] + [0] * 7)).hex())
+                cmds.append((now, ch, 1, d))
+                self.wait(ops, 100)
+                now += 100
+            self.wait(ops, 50000)
+            yield F.Case("alltimers%d" % i, ops, {"tags": ["kind:scenario", "relays:%d" % nrel, "all-channels"], "kind": "scenario", "cmds": cmds})
 
     def gen_probe(self, rng, i):
         ops = ["board relay8", "init"]
@@ -88,7 +104,10 @@ class C07(F.Spec):
             ch = rng.randrange(nrel)
             v = rng.choice([1, 1, 0])
             d = rng.choice([0, 1, 30, 49, 50, 51, 120, 500, 999, 1000, 2500, 10000, 12345, 60000])
-            ops.append("msg 110 " + set_value(9, ch, d, bytes([v] + [0] * 7)).hex())
+            if rng.random() < .25:
+                ops.append("msg 115 " + group_value(9, rng.choice([1, 7, 300]), 1, ch, d, bytes([v] + [0] * 7)).hex())
+            else:
+                ops.append("msg 110 " + set_value(9, ch, d, bytes([v] + [0] * 7)).hex())
             cmds.append((now, ch, v, d))
             step = rng.choice([100, 150, 300, 700, 1500, 3000, 11000])
             self.wait(ops, step)
@@ -275,12 +294,15 @@ class C07(F.Spec):
                 stair[int(t[1])] = int(t[2])
             elif t[0] == "adv":
                 now += int(t[1])
-            elif t[0] == "msg" and t[1] == "110":
+            elif t[0] == "msg" and t[1] in ("110", "115"):
                 for x in g:
                     if x.startswith("NOW "):
                         now = int(x.split()[1]) // 1000      # true time: earlier ops advanced it by their os_delay_us
                 pl = bytes.fromhex(t[2])
-                ch, d, v = pl[4], int.from_bytes(pl[5:9], "little"), pl[9]
+                if t[1] == "110":
+                    ch, d, v = pl[4], int.from_bytes(pl[5:9], "little"), pl[9]
+                else:       # the same command addressed through a channel group
+                    ch, d, v = pl[9], int.from_bytes(pl[10:14], "little"), pl[14]
                 v = 1 if v else 0
                 if stair.get(ch, 0) > 0:
                     d = stair[ch] if v == 1 else 0      # the configured staircase time, not the command's
